@@ -230,7 +230,6 @@ func vfReaderConn(tc *vfConn, isServer bool, R int) *Conn {
 	return newConn(tc, isServer, R, 16, nil, nil, nil)
 }
 
-
 type vfSent struct {
 	mt   int
 	data []byte
